@@ -88,6 +88,9 @@ func run(col *core.Collector, prop, tier, variant string, seed uint64, shard, ns
 			seq.RunProperty(col, prop, tier, seed, shard, nshards, replayDir)
 		}
 		conc.Run(col, prop, tier, variant, seed, shard, nshards, replayDir, out)
+		if prop == "C06" {
+			conc.RunC06Expiry(col, tier, variant, seed, shard, nshards, replayDir)
+		}
 	case "C15":
 		conc.RunC15(col, tier, variant, seed, shard, nshards, replayDir, out)
 	case "C16":
